@@ -126,13 +126,21 @@ def run(main_module, cfg, *, extra_files=None, workers=16, timeout=900,
     r = TLCRun()
     d = mkscratch("zcv-tlc-")
     try:
-        if "\n" in main_module:
-            name = "MC"
-            with open(os.path.join(d, "MC.tla"), "w") as f:
-                f.write(main_module)
-        else:
-            name = main_module
-            shutil.copy(os.path.join(SPEC_DIR, name + ".tla"), d)
+        if "\n" not in main_module:
+            for sub in ("mc", ""):
+                cand = os.path.join(SPEC_DIR, sub, main_module + ".tla")
+                if os.path.exists(cand):
+                    with open(cand) as f:
+                        main_module = f.read()
+                    break
+            else:
+                raise TLCError("no such module: " + main_module)
+        m = re.search(r"^-+ *MODULE +(\w+) *-+", main_module, re.M)
+        if not m:
+            raise TLCError("module text has no header")
+        name = m.group(1)
+        with open(os.path.join(d, name + ".tla"), "w") as f:
+            f.write(main_module)
         with open(os.path.join(d, name + ".cfg"), "w") as f:
             f.write(cfg)
         for fn, content in (extra_files or {}).items():
